@@ -494,7 +494,24 @@ func (t *Tracer) condKey(fr *Frame, c ssa.Value, st State) (key string, neg bool
 			k, n, l, cc := t.condKey(fr, x.X, st)
 			return k, !n, l, cc
 		}
+	case *ssa.Extract:
+		// first `ok` of a range over a map: the map is non-empty
+		if nx, ok := x.Tuple.(*ssa.Next); ok && x.Index == 0 && !nx.IsString {
+			if rg, ok := nx.Iter.(*ssa.Range); ok && t.entries(fr, nx.Block(), st) <= 1 {
+				return "nonempty(" + t.valKey(fr, rg.X, st) + ")", false, "", false
+			}
+		}
 	case *ssa.BinOp:
+		// first test `0 < len(S)` of a range over a slice: the slice is non-empty
+		if x.Op == token.LSS {
+			if k, ok := t.foldInt(fr, x.X); ok && k == 0 {
+				if call, ok := x.Y.(*ssa.Call); ok {
+					if b, ok := call.Call.Value.(*ssa.Builtin); ok && b.Name() == "len" {
+						return "nonempty(" + t.valKey(fr, call.Call.Args[0], st) + ")", false, "", false
+					}
+				}
+			}
+		}
 		if x.Op == token.EQL || x.Op == token.NEQ {
 			lk, rk := t.valKey(fr, x.X, st), t.valKey(fr, x.Y, st)
 			if !strings.HasPrefix(rk, "const:") && strings.HasPrefix(lk, "const:") {
@@ -516,6 +533,12 @@ func (t *Tracer) valKey(fr *Frame, v ssa.Value, st State) string {
 	r := t.Resolve(fr, v)
 	if f, base := fieldLoad(r.V); f != nil {
 		return fmt.Sprintf("fld(%s.%s#%d)", t.valKey(r.Fr, base, st), f.Name(), st.epoch(f))
+	}
+	// a load of a captured variable whose closure is analysed on its own
+	if u, ok := r.V.(*ssa.UnOp); ok && u.Op == token.MUL {
+		if fv, ok := u.X.(*ssa.FreeVar); ok {
+			return "cellof:" + fnName(fv.Parent()) + ":" + fv.Name()
+		}
 	}
 	// a value computed inside a loop is a new value on every iteration
 	if in, ok := r.V.(ssa.Instruction); ok && in.Block() != nil {
@@ -863,4 +886,43 @@ func (t *Tracer) evalCond(fr *Frame, c ssa.Value) (bool, bool) {
 		return false, false
 	}
 	return t.Spec.Eval(t, fr, c)
+}
+
+
+// entries counts how often block b of frame fr was entered on the path.
+func (t *Tracer) entries(fr *Frame, b *ssa.BasicBlock, st State) int {
+	n := 0
+	for e := st.edges; e != nil; e = e.next {
+		if e.fr == fr && e.to == b.Index {
+			n++
+		}
+	}
+	return n
+}
+
+// foldInt constant-folds small integer expressions along the current path
+// (phis resolve to the edge the path came in over).
+func (t *Tracer) foldInt(fr *Frame, v ssa.Value) (int64, bool) {
+	return t.foldIntD(fr, v, 0)
+}
+
+func (t *Tracer) foldIntD(fr *Frame, v ssa.Value, depth int) (int64, bool) {
+	if depth > 4 {
+		return 0, false
+	}
+	r := t.Resolve(fr, v)
+	if k, ok := constInt(r.V); ok {
+		return k, true
+	}
+	if b, ok := r.V.(*ssa.BinOp); ok && (b.Op == token.ADD || b.Op == token.SUB) {
+		x, okx := t.foldIntD(r.Fr, b.X, depth+1)
+		y, oky := t.foldIntD(r.Fr, b.Y, depth+1)
+		if okx && oky {
+			if b.Op == token.ADD {
+				return x + y, true
+			}
+			return x - y, true
+		}
+	}
+	return 0, false
 }
